@@ -65,6 +65,9 @@ type c08Flip struct {
 	FlipPct int
 	Salt    int
 	After   bool `json:",omitempty"` // the flag-flipped copy arrives AFTER the proper one (else before it)
+	// Unrestricted (reproducer of known finding F20 only): the late flipped copy is sent even when the proper copy
+	// has not been accepted yet
+	Unrestricted bool `json:",omitempty"`
 }
 
 func genC08Flip(protos []string) func(t *rapid.T) c08Flip {
@@ -123,7 +126,7 @@ func runC08Flip(c c08Flip) ev.Outcome {
 						accepted = false // the round still waits for something from this sender (a second message type)
 					}
 				}
-				if accepted {
+				if accepted || c.Unrestricted {
 					net.Inject(&sim.Delivery{E: s.D.E, To: s.D.To, From: s.D.From, Bytes: s.D.Bytes, Bcast: !s.D.Bcast, Tag: "flip"})
 					flips++
 				}
@@ -142,7 +145,19 @@ func runC08Flip(c c08Flip) ev.Outcome {
 	out = c08Outcome(out, mon)
 	out.Label = fmt.Sprintf("flagflip %s sched=%s flips>0=%v flipped-copy-after=%v", c.Run, c.Sched.Class(), flips > 0, c.After)
 	out.Nontrivial = flips > 0
+	if c.Unrestricted && out.Err != nil {
+		out.Sig = "wrong-channel-duplicate-replaces-unaccepted-message:" + c.Run.Proto
+	}
 	return out
+}
+
+// TestC08KnownFindingF20: reproducer of the open known finding F20 (a wrong-channel duplicate that arrives before
+// the proper copy has been accepted replaces it; WaitingFor then names a peer whose message was delivered and the
+// run never completes). Everywhere else the flag-flip generator sends the late copy only after acceptance.
+func TestC08KnownFindingF20(t *testing.T) {
+	r := ev.New(t, "C08")
+	cases := []c08Flip{{Run: fixedRun("eddsa-keygen", 3, 1, 0), Sched: SchedSpec{Kind: "lifo"}, FlipPct: 100, After: true, Unrestricted: true}}
+	ev.Each(t, r, cases, runC08Flip)
 }
 
 func TestC08FlagFlipEdDSA(t *testing.T) {
